@@ -657,7 +657,7 @@ func (img *image) run(j *job) (*jobResult, error) {
 					diag := "other"
 					if family != "" {
 						diag = family
-					} else if len(got) == 0 && len(w.value) > 0 && gtx == t.id && ghv == w.hVal && j.class == "entry.vLen" {
+					} else if len(got) == 0 && len(w.value) > 0 && gtx == t.id && ghv == w.hVal {
 						diag = "vLen-0-empty-value"
 					}
 					finding("Get+Resolve(index rebuild)", "altered-content", diag, detail)
